@@ -164,8 +164,10 @@ static void s_alloc_tracer_track(struct alloc_tracer *tracer, void *ptr, size_t 
              * have, to at least have an anchor for where allocation is comming from, however inaccurate it is.
              */
             if (stack_depth <= FRAMES_TO_SKIP) {
-                memcpy((void **)&stack->frames[0], &stack_frames[0], (stack_depth) * sizeof(void *));
-                stack->depth = stack_depth;
+                /* the record only has room for frames_per_stack frames */
+                size_t depth = aws_min_size(stack_depth, tracer->frames_per_stack);
+                memcpy((void **)&stack->frames[0], &stack_frames[0], depth * sizeof(void *));
+                stack->depth = depth;
                 item->value = stack;
             } else {
                 memcpy(
